@@ -35,17 +35,23 @@ func breadcrumb(c Case) {
 	}
 }
 
-func deepRead(v interface{}) int {
+func deepRead(v interface{}) int { return deepReadDepth(v, 0) }
+
+// depth limited: a broken library may have made the document cyclic
+func deepReadDepth(v interface{}, depth int) int {
+	if depth > 10000 {
+		return 0
+	}
 	n := 0
 	switch t := v.(type) {
 	case []interface{}:
 		for _, e := range t {
-			n += deepRead(e)
+			n += deepReadDepth(e, depth+1)
 		}
 		n += len(t)
 	case map[string]interface{}:
 		for k, e := range t {
-			n += len(k) + deepRead(e)
+			n += len(k) + deepReadDepth(e, depth+1)
 		}
 	case string:
 		n += len(t)
